@@ -327,7 +327,7 @@ func init() {
 		ID:    "C03",
 		Level: "exploration",
 		Rule: "(1) every string of length <= 3 and every string containing '%' of length <= 5 (quick) / <= 6 (thorough) over {%, a, p, ., (, ), \", space, comma, é} as a parameter value: build verdict vs. hand-written evaluator (reject / accept / unspecified), accepted ones packed and evaluated by GetParam in a probe; " +
-			"(1b) every argument text of length <= 4 / <= 5 over {(, ), \", a, comma, space, ., /} inside %a(...)%, in both modes; (1d) every string of length <= 3 over {%, backslash, \", newline, NUL, an astral rune, ', `, $, @, !, U+2028} as parameter and as constructor argument; (2) every chunk sequence of length <= 3 (quick) / <= 4 (thorough) over 25 chunk kinds (literals, %%, references to every literal type, functions ok/failing, env/envInt hit/miss/default/bad, todo) as parameter and as constructor argument; (3) the doubling corollary for every string of (1); (4) 36 values of the environment variable (signs, leading zeros, base prefixes, underscores, blanks, int64 limits, non-ASCII digits, %) read through env / envInt, alone, with defaults and inside patterns; (5) a registered function with typed parameters (int64, float64, uint8, string, ...float32) called with integer and float literals. non-trivial = contains '%' or is evaluated at run time; distinct = distinct string / sequence",
+			"(1b) every argument text of length <= 4 / <= 5 over {(, ), \", a, comma, space, ., /} inside %a(...)%, in both modes; (1d) every string of length <= 3 over {%, backslash, \", newline, carriage return, tab, NUL, an astral rune, ', `, $, @, !, U+2028} as parameter and as constructor argument; (2) every chunk sequence of length <= 3 (quick) / <= 4 (thorough) over 25 chunk kinds (literals, %%, references to every literal type, functions ok/failing, env/envInt hit/miss/default/bad, todo) as parameter and as constructor argument; (3) the doubling corollary for every string of (1); (4) 36 values of the environment variable (signs, leading zeros, base prefixes, underscores, blanks, int64 limits, non-ASCII digits, %) read through env / envInt, alone, with defaults and inside patterns; (5) a registered function with typed parameters (int64, float64, uint8, string, ...float32) called with integer and float literals; (6) ten ways of naming the package of a registered function (alias, alias/sub-path, quoted, unquoted, dotted and dashed paths), each called three times. non-trivial = contains '%' or is evaluated at run time; distinct = distinct string / sequence",
 		Assumptions: []string{
 			"unspecified: function-call chunks whose argument text is valid Go but not a list of string literals (identifiers would have to exist as Go symbols)",
 			"the pinned runtime's documented string cast (exporter.CastToString) is re-stated in the model for the YAML literal types",
@@ -437,7 +437,7 @@ func init() {
 			// (1d) a second alphabet: quotes, backslash, newline, NUL, an astral rune, characters that start other
 			// argument forms; every string of length <= 3 as parameter value and as constructor argument
 			var wild []string
-			words([]string{"%", `\`, `"`, "\n", "\x00", "😀", "'", "`", "$", "@", "!", "\u2028"}, 3, func(x string) {
+			words([]string{"%", `\`, `"`, "\n", "\r", "\t", "\x00", "😀", "'", "`", "$", "@", "!", "\u2028"}, 3, func(x string) {
 				if x != "" {
 					wild = append(wild, x)
 				}
@@ -613,6 +613,21 @@ func init() {
 					behaviourOracle(c, outs, err)
 				})
 			}
+			// (6) how the registered function names its package: alias, alias/sub-path, quoted, unquoted, paths with dots and dashes
+			w.Case("function-import-forms", func(c *C) {
+				cfg := &Cfg{Meta: &Meta{Pkg: P("gen"), Imports: []KV{{"pk", "fx/pk"}, {"fxroot", "fx"}, {"dotted.alias", "fx/p-k.g"}}}}
+				var ops []ProbeOp
+				for i, fn := range []string{"pk.FnStr", "fxroot/pk2.FnStr", `"fx/pk".FnInt`, "fx/pk2.FnInt", "fx/p-k.g.FnStr", `"fx/p-k.g".FnInt`, "dotted.alias.FnStr", "fx/a/pkg.FnStr", `"fx/ab/ab".FnStr`, "fxroot/pk2/sub.FnInt"} {
+					n := fmt.Sprintf("f%d", i)
+					cfg.Meta.Functions = append(cfg.Meta.Functions, KV{n, fn})
+					cfg.Params = append(cfg.Params, Param{"p" + n, "%" + n + `("x", 1)%`}, Param{"m" + n, "<%" + n + "()%|%" + n + "(2)%>"})
+					ops = append(ops, op("param", "p"+n), op("param", "m"+n))
+					c.Distinct("all", "fnform:"+fn)
+					c.Distinct("nontrivial", "fnform:"+fn)
+				}
+				outs, err := w.RunBehaviour([]*BCase{{ID: c.ID, Cfg: cfg, Sessions: []BSession{{Ops: append(ops, op("counters", ""))}}}})
+				behaviourOracle(c, outs, err)
+			})
 			// (5) a registered function whose parameter types differ from the literal types: the call happens "with those
 			// arguments", i.e. converted to the parameter types
 			w.Case("typed-function-arguments", func(c *C) {
